@@ -34,7 +34,7 @@ fn flat(width: u32) -> Vec<Reg> {
     (1..=width).map(|t| Reg::Sys { tag: t, name: format!("s{}", t), deps: vec![], reads: vec![], writes: vec![100 + t], time: 3, kind: SysKind::Dynamic }).collect()
 }
 
-/// cfg: user | default | batch | async | foreign | defbatch | batchfirst ; returns "arrived=<max simultaneously inside>;timeout=<0|1>;ok=<0|1>" per repetition
+/// cfg: user | default | batch | async | foreign | asyncforeign | defbatch | batchfirst ; returns "arrived=<max simultaneously inside>;timeout=<0|1>;ok=<0|1>" per repetition
 pub fn observe(cfg: &str, width: u32, pool_size: usize, reps: u32, limit_ms: u64) -> String {
     let rec = Recorder::new(MapMode::B);
     rec.set_caller();
@@ -65,14 +65,23 @@ pub fn observe(cfg: &str, width: u32, pool_size: usize, reps: u32, limit_ms: u64
     let rv = Arc::new(Rendezvous { width: width as usize, arrived: Mutex::new((0, 0)), cv: Condvar::new(), limit: Duration::from_millis(limit_ms),
                                    timed_out: Mutex::new(false), max_seen: Mutex::new(0) });
     let mut res = Vec::new();
-    if cfg == "async" {
+    if cfg == "async" || cfg == "asyncforeign" {
         let world = make_world(&regs, MapMode::B);
         let mut ad = builder.build_async(world);
         let _ = catch_unwind(AssertUnwindSafe(|| ad.setup()));
         rec.set_sched(rv.clone());
+        let outer1 = if cfg == "asyncforeign" { Some(rayon::ThreadPoolBuilder::new().num_threads(1).build().unwrap()) } else { None };
         for _ in 0..reps {
             rv.reset(); *rv.max_seen.lock().unwrap() = 0;
-            let r = catch_unwind(AssertUnwindSafe(|| { ad.dispatch(); ad.wait(); }));
+            // asyncforeign: dispatch() and wait() are called from the only worker of ANOTHER rayon pool
+            let r = if cfg == "asyncforeign" {
+                // (the dispatcher type is not Send because it may hold thread-local systems: it holds none here)
+                struct SendPtr<T>(*mut T);
+                unsafe impl<T> Send for SendPtr<T> {}
+                let adr = SendPtr(&mut ad as *mut shred::AsyncDispatcher<'static, shred::World>);
+                let o = outer1.as_ref().unwrap();
+                catch_unwind(AssertUnwindSafe(|| o.install(move || { let a = adr; let ad = unsafe { &mut *a.0 }; ad.dispatch(); ad.wait(); })))
+            } else { catch_unwind(AssertUnwindSafe(|| { ad.dispatch(); ad.wait(); })) };
             res.push(format!("arrived={}:timeout={}:ok={}", *rv.max_seen.lock().unwrap(), *rv.timed_out.lock().unwrap() as u8, r.is_ok() as u8));
             if *rv.timed_out.lock().unwrap() { break; }
         }
